@@ -66,7 +66,9 @@ func main() {
 			cfg.ResumeIndex, _ = strconv.Atoi((*fResume)[i+1:])
 		}
 		c := mon.NewCtx(cfg)
+		flush := props.InstallHookCounters(c)
 		p.Run(c)
+		flush()
 		c.Finish()
 		return
 	}
